@@ -28,7 +28,8 @@ func init() {
 			"computeHash hashes every PackageSpec field the loader reads, on both the build-id and the fallback branch, and never inside a loop over a map (R4.2); analyzerNames is the sorted join of the very slice that is executed and dependency lists are sorted (R4.3); " +
 			"the Config field removed from the key (Checks) is read by no analysis code (R4.4); code reachable from doUncached and from every analyzer's Run calls ambient-input APIs (environment, file system, clock, randomness) only at the frozen sites (R4.5); " +
 			"result fields set on a miss are restored on a hit (R4.6); the salt is set from the executable before any hash (R4.7). " +
-			"It does NOT decide that results are a function of these inputs, SHA-256 collision freedom, gob round-trip fidelity or go list's view of the world.",
+			"It does NOT decide that results are a function of these inputs, SHA-256 collision freedom, gob round-trip fidelity or go list's view of the world." +
+			" Also decided: nothing on the runner's miss path reads Config.Checks; every other Config field is written into the key; user-provided configuration lists are rendered injectively (%#v/%q, never joined with a separator).",
 		RuleText:    "obligation = (rule, Type.field | call site | function); effect sets (field reads/writes) over the CHA call graph (VTA in the thorough tier), value-origin slices of every hash write, guard-edge path rules",
 		Assumptions: []string{"analysis results are a deterministic function of the inputs enumerated in the key (C06 covers determinism structurally)", "the environment is the same between the runs compared (stated in the property)"},
 		Run:         runC04,
